@@ -73,6 +73,11 @@ def coq_hint(h):
         return f'(HType {coq_list(["c_" + c for c in h[1]])})' if h[1] else '(HShallow c_type)'
     if t == 'annot':
         return f'(HAnnot {coq_hint(h[1])} {coq_list([coq_vexp(v) for v in h[2]])})'
+    # hints beartype reduces to another hint before generating code: the model is handed what they mean
+    if t == 'tvar_constr':            # TypeVar('T', A, B, ...): any one of the constraints
+        return f'(HUnion {coq_list([coq_hint(x) for x in h[1]])})'
+    if t in ('tvar_bound', 'newtype'):   # TypeVar('T', bound=H); NewType('N', C)
+        return coq_hint(h[1])
     raise ValueError(h)
 
 
@@ -267,8 +272,10 @@ def gen_sat(rng, h, sizes=(0, 1, 2, 3)):
     if t == 'shallow':
         return ['cont', 'generator' if h[1] == 'Generator' else rng.choice(['list_iterator', 'generator']),
                 [gen_scalar(rng) for _ in range(rng.choice([0, 2]))]]
-    if t == 'union':
+    if t in ('union', 'tvar_constr'):
         return gen_sat(rng, rng.choice(h[1]), sizes)
+    if t in ('tvar_bound', 'newtype'):
+        return gen_sat(rng, h[1], sizes)
     if t == 'optional':
         return ['none'] if rng.random() < 0.3 else gen_sat(rng, h[1], sizes)
     if t == 'cont':
